@@ -64,11 +64,16 @@ ssize_t verif_write(int fd, const void *buf, size_t n) {
 struct timespec vc_now = {1000, 0};
 long vc_reads = 0;
 int verif_clock_gettime(clockid_t clk, struct timespec *ts) {
-  (void)clk;
   vc_reads++;
   vc_now.tv_nsec += 1;
   if (vc_now.tv_nsec >= 1000000000L) { vc_now.tv_nsec -= 1000000000L; vc_now.tv_sec += 1; }
   *ts = vc_now;
+  /* the coarse clocks only move once per kernel tick (4 ms here): two reads inside one tick return the same value */
+#ifdef CLOCK_MONOTONIC_COARSE
+  if (clk == CLOCK_MONOTONIC_COARSE || clk == CLOCK_REALTIME_COARSE) ts->tv_nsec -= ts->tv_nsec % 4000000L;
+#else
+  (void)clk;
+#endif
   return 0;
 }
 
